@@ -107,9 +107,23 @@ func checkC03(c *Check) {
 			idx = i
 		}
 	}
-	for _, site := range P.CallersOf(R.CookieReader) {
-		if idx < 0 || !isHandlerConfig(site.Common().Args[idx]) {
+	if idx < 0 {
+		// the reader is a method of the handler: it names the cookie from the handler's own configuration field
+		n := 0
+		for _, ci := range callsToFn(R.CookieReader, R.CookieName) {
+			n++
+			if !isHandlerConfig(ci.Common().Args[0]) {
+				cfgOK = false
+			}
+		}
+		if n == 0 {
 			cfgOK = false
+		}
+	} else {
+		for _, site := range P.CallersOf(R.CookieReader) {
+			if !isHandlerConfig(site.Common().Args[idx]) {
+				cfgOK = false
+			}
 		}
 	}
 	c.Obl(readOK && cfgOK, "C03.R1", "cookie-name/read", P.Pos(R.CookieReader.Pos()), "the reader selects the cookie whose name equals getCookieName(handler config)",
